@@ -9,6 +9,7 @@
 #include <gudhi/filtered_zigzag_persistence.h>
 #include <gudhi/zigzag_persistence.h>
 
+#include <csetjmp>
 #include <memory>
 #include <tuple>
 
@@ -94,7 +95,22 @@ struct KeyMap {
     return b;
   }
 };
-inline double act_value(const bj::object& act) { return static_cast<double>(act.at("fv").as_object().at(zz_cfg().sched).to_number<std::int64_t>()); }
+inline double act_value(const bj::object& act) { return vf_to_double(act.at("fv").as_object().at(zz_cfg().sched)); }  // INF_CODE -> +infinity
+
+// A read of the storage front end that dies with SIGSEGV/SIGBUS is turned into an observation ("crash" key, which the
+// specification never has) instead of ending the process, so that the remaining behaviours are still replayed.
+inline sigjmp_buf& zz_jmp() { static sigjmp_buf b; return b; }
+inline void zz_segv(int) { siglongjmp(zz_jmp(), 1); }
+template <class F>
+bool guarded(F&& f) {
+  auto old1 = std::signal(SIGSEGV, zz_segv);
+  auto old2 = std::signal(SIGBUS, zz_segv);
+  bool ok = true;
+  if (sigsetjmp(zz_jmp(), 1) == 0) f(); else ok = false;
+  std::signal(SIGSEGV, old1);
+  std::signal(SIGBUS, old2);
+  return ok;
+}
 inline std::string dname(int D) { return D < 0 ? "m" + std::to_string(-D) : std::to_string(D); }
 
 // ------------------------------------------------------------------------------------------------- plain
@@ -209,9 +225,11 @@ struct ZzStorage {
     return bag_arr(v);
   }
   bj::object observe() {
-    return bj::object{{"arrow", arrows},
-                      {"si_" + dname(zz_cfg().D) + "_set", index_diagram()},
-                      {"sd_" + zz_cfg().sched + "_" + dname(zz_cfg().D) + "_set", diagram()}};
+    bj::object o{{"arrow", arrows}, {"si_" + dname(zz_cfg().D) + "_set", index_diagram()}};
+    bj::array d;
+    if (guarded([&] { d = diagram(); })) o["sd_" + zz_cfg().sched + "_" + dname(zz_cfg().D) + "_set"] = d;
+    else o["crash"] = "SIGSEGV in get_persistence_diagram";
+    return o;
   }
 };
 
